@@ -38,6 +38,13 @@ def gen_history(rng, nops):
             ops.append({"op": "newpoint", "out": x})
             points.append(x)
             return x
+        if c < 0.64 and len(points) >= 2:
+            # a point that nearly coincides with another one: x0 + 1e-9 * y0 is another point
+            x0, y0 = rng.sample(points, 2)
+            x = nm("n")
+            ops.append({"op": "plin", "out": x, "terms": [[x0, 1.0], [y0, rng.choice([1e-9, -1e-9, 1e-10, 3e-9])]]})
+            points.append(x)
+            return x
         if c < 0.8 and points:
             # an aliased point: another object with the same decomposition
             x0 = rng.choice(points)
